@@ -24,7 +24,7 @@ import LMV.Driver.Util
     c17create    <obs> <alpha> <n> <item hex | - | #>*n
     c17stripe    <obs> <alpha> <text hex | ->
     c17load      <init obs> <file kind> <format hex> <protein 0|1> <n> (<record kind> <record obs>)*n
-                 file kind := path | missing | binary | chunked | boundary | greedy | text | bytearray | memoryview | noread
+                 file kind := path | missing | binary | chunked | boundary | greedy | latetype | lateraise | lateos | text | bytearray | memoryview | noread
     c17cminit    <alpha> <column>*K        column := - | # | <n> <int | x>*n       (exact answer)
     c17sminit    <alpha> <pyarg> <column>*K     column := - | # | <n> <bits | x>*n  (exact answer)
 -/
@@ -175,6 +175,8 @@ def handle (toks : List String) : String :=
       -- chunks later reads return) / returns `bytearray`, `memoryview` (not `bytes`: refused like text)
       | "binary" | "chunked" | "boundary" | "greedy" => .binary
       | "bytearray" | "memoryview" => .text
+      -- `read(0)` returns `bytes`; later reads return a `bytearray` / raise RuntimeError / raise OSError(errno)
+      | "latetype" => .lateBad .typeError | "lateraise" => .lateBad .runtimeError | "lateos" => .lateBad .osError
       | _ => .noRead
     let fmt := unhexStr format
     let first := admissible obs (loaderInit file fmt (prot == "1"))
@@ -182,7 +184,7 @@ def handle (toks : List String) : String :=
       | 0, _, acc => acc.reverse
       | k + 1, kind :: o :: toks, acc =>
         let r : RecordResult := match kind with
-          | "io" => .errIo | "data" => .errData | "parse" => .errParse | "nocounts" => .ok false | _ => .ok true
+          | "io" => .errIo | "pytype" => .errPy .typeError | "pyraise" => .errPy .runtimeError | "data" => .errData | "parse" => .errParse | "nocounts" => .ok false | _ => .ok true
         recs k toks (admissible o (convertRecord fmt r) :: acc)
       | _, _, acc => acc.reverse
     let all := first :: recs (parseNat! n) rest []
